@@ -222,6 +222,21 @@ CHECKS.append({
             "implementation-side oracle against ref/refrender.py; a change that stays inside the bands is reported with no-failing-input-found.",
 })
 
+CHECKS.append({
+    "property_id": "C10",
+    "design_ref": "DESIGN.md 5 (C10)",
+    "technique": "Coq proof: AD-safety predicate over a deep expression embedding of the kernels regenerated from rendering.py (second printer of the same "
+                 "ast extraction; deep = shallow by reflexivity), discharged on the whole prior box by positivity reasoning; interval translator validation; "
+                 "implementation-side value_and_grad lattice oracle",
+    "text": "Four theorems (Props/C10.v) for ALL sample points, centres (including centres on a sample point), angles and fluxes with r_eff>=1/2, "
+            "0<=ellip<=9/10, n>=13/20: every primitive of the analytic Sersic kernel is evaluated strictly inside its differentiability domain in BOTH "
+            "branches of each jnp.where; the Fourier kernels contain no restricted primitive; the hybrid real-space components, PSF broadening (any "
+            "s_psf) and log-spaced widths are safe for sigma>0, q>0.  PARTIAL: finiteness of VALUES under float32 rounding/overflow is not modelled.",
+    "note": "Trusted: Coq kernel, Interval, Reals axioms; translator (two printers); the link 'ad_safe implies finite reverse-mode gradient' is the modelled "
+            "semantics of JAX AD (including 0-cotangent times infinite partial = NaN for jnp.where) and is tied only by the implementation-side lattice "
+            "oracle (eager and jit, float32); gammaln, interpax and FFT internals are outside the model.",
+})
+
 _PENDING = "check not built yet in this session (build order in DESIGN.md section 9); will be claimed once its Coq model, theorems and tie exist"
 NOT_APPLICABLE = [
     {"property_id": "C%02d" % i, "reason": _PENDING}
